@@ -212,7 +212,9 @@ def annotD : Option Expr → Option ADflt
 end
 
 def annotFn (f : Fn) : Option AFn :=
-  (annotA f.body).map fun b => { name := f.name, params := f.params, ret := f.ret, body := b }
+  if f.generics.isEmpty then
+    (annotA f.body).map fun b => { name := f.name, params := f.params, ret := f.ret, body := b }
+  else none
 
 def annotFile : List Fn → Option AFile
   | [] => some []
